@@ -26,3 +26,4 @@ def check(ctx):
         n += 1
         adapters.check_adapter(ctx, facts, fn, "", kind=kind)
     ctx.floor("R1", "fastrace::future", n, 2, "adapter poll methods")
+    adapters.rule_drop_order(ctx, facts, "R4", "fastrace::future::InSpan")
